@@ -11,7 +11,7 @@ from __future__ import annotations
 import copy
 
 from dst.core import prng, shrink
-from dst.world import decoder_rig, messages
+from dst.world import decoder_rig, messages, pristine
 
 PROP = "C12"
 LEVEL = "exploration"
@@ -39,10 +39,21 @@ ASSUMPTIONS = [
     "ties between decoders that return equal dictionaries are accepted for previous_success_decoder",
     "an exception escaping the AutoDecoder is C15's violation; it is additionally a C12 violation only when some decoder accepts the payload (a result was owed)",
 ]
-MUST_FIRE = {"quick": ["meter_swap_steps", "nobody_accepts_steps", "sticky_steps", "own_decoder_histories", "lockstep_hdlc", "lockstep_dlms", "bystander_decoder_instance", "entry_readout", "entry_hdlc"], "thorough": ["meter_swap_steps", "nobody_accepts_steps", "sticky_steps", "own_decoder_histories", "lockstep_hdlc", "lockstep_dlms"]}
+MUST_FIRE = {"quick": ["meter_swap_steps", "nobody_accepts_steps", "sticky_steps", "own_decoder_histories", "lockstep_hdlc", "lockstep_dlms", "bystander_decoder_instance", "entry_readout", "entry_hdlc", "simulated_process_clock"], "thorough": ["meter_swap_steps", "nobody_accepts_steps", "sticky_steps", "own_decoder_histories", "lockstep_hdlc", "lockstep_dlms"]}
+
+
+# seconds after 2030-01-01: start of day, just before midnight / year end / 1 March, just before 2^31, an arbitrary afternoon
+CLOCK_STARTS = [0.0, 86390.0, 365 * 86400.0 - 5, 58 * 86400.0 + 86397, 2147483647.0 - 1893456000.0 - 3, 789 * 86400.0 + 7199]
 
 
 def gen(rng, tier, index):
+    for sc in _gen(rng, tier, index):
+        if rng.random() < 0.3:
+            sc["clock"] = [rng.choice(CLOCK_STARTS), rng.choice([0.0, 1.5, 7.0, 3600.0, 86400.0])]
+        yield sc
+
+
+def _gen(rng, tier, index):
     pool = messages.corpus()
     n = rng.choice([1, 2, 3, 3, 5, 8, 13, 30])
     hist = []
@@ -63,6 +74,23 @@ def gen(rng, tier, index):
         for _ in range(rng.randint(1, 3)):
             e = rng.choice(pool)
             hist.append({"data": e["data"].hex(), "k": "genuine", "src": e["name"]})
+        yield {"history": hist, "own": None, "bystander": 0}
+        return
+    if rng.random() < 0.08:
+        # OBIS codes wander between meters and forms: a genuine message, then another meter's message carrying one of
+        # the first one's codes (and the other way round), interleaved with genuine traffic
+        a, b = rng.choice(pool), rng.choice(pool)
+        hist = []
+        for _ in range(rng.randint(1, 3)):
+            x = messages.obis_cross(rng, a, b)
+            y = messages.obis_cross(rng, b, a)
+            hist.append({"data": a["data"].hex(), "k": "genuine", "src": a["name"]})
+            if x is not None:
+                hist.append({"data": x.hex(), "k": "obis_cross", "src": b["name"]})
+            if y is not None:
+                hist.append({"data": y.hex(), "k": "obis_cross", "src": a["name"]})
+            if rng.random() < 0.5:
+                hist.append({"data": b["data"].hex(), "k": "genuine", "src": b["name"]})
         yield {"history": hist, "own": None, "bystander": 0}
         return
     mixed = rng.random() < 0.4  # one instance used through both entry points and all message classes
@@ -95,10 +123,10 @@ def same(a, b) -> bool:
 _ACCEPT_CACHE: dict = {}
 
 
-def acceptors(payload: bytes):
+def acceptors(payload: bytes, cache: bool = True):
     from han.autodecoder import AutoDecoder
 
-    hit = _ACCEPT_CACHE.get(payload)
+    hit = _ACCEPT_CACHE.get(payload) if cache else None
     if hit is not None:
         return hit
     out = {}
@@ -107,14 +135,40 @@ def acceptors(payload: bytes):
             out[name] = fn(payload)
         except Exception:  # noqa: BLE001 - any failure = does not accept
             pass
-    if len(_ACCEPT_CACHE) < 5000:
+    if cache and len(_ACCEPT_CACHE) < 5000:
         _ACCEPT_CACHE[payload] = out
     return out
 
 
 def execute(sc):
+    """The whole history runs on the simulated process clock (reader_rig.ProcessClock); with sc["clock"] = [start, step]
+    it moves on between the model's question and the AutoDecoder's call: a result is a function of the payload and
+    the history, not of the moment it is asked for."""
+    from dst.world import reader_rig
+
+    start, step = sc.get("clock") or (789 * 86400.0 + 7199, 0.0)  # no clock in the scenario: time stands still
+    clock = reader_rig.ProcessClock()
+    clock.t = float(start)
+    with clock:
+        res = _execute(sc, (clock, float(step)))
+    if sc.get("clock"):
+        res["probes"]["simulated_process_clock"] = 1
+    if clock.reads:
+        res["probes"]["process_clock_reads"] = clock.reads
+    return res
+
+
+def _execute(sc, ticking):
     from han.autodecoder import AutoDecoder
 
+    def tick():
+        if ticking is not None:
+            ticking[0].t += ticking[1]
+
+    pristine.ensure()
+    if pristine.changed():  # one run = one process lifetime: start from the state of a freshly imported library
+        pristine.reset()
+        _ACCEPT_CACHE.clear()
     d1 = AutoDecoder()
     d2 = AutoDecoder()
     bystander = AutoDecoder() if sc.get("bystander") else None  # another meter's decoder in the same process
@@ -143,7 +197,7 @@ def execute(sc):
                 bystander.decode_message_payload(pool[(step * 5 + sc["bystander"]) % len(pool)]["data"])
             except Exception:  # noqa: BLE001
                 pass
-        acc = acceptors(payload)
+        acc = acceptors(payload, cache=not sc.get("clock") and not pristine.changed())  # cached verdicts were taken at the default instant
         entry = item.get("e", "payload")
         msg1 = None
         if entry == "hdlc":
@@ -167,6 +221,7 @@ def execute(sc):
         if msg1 is not None and entry != "readout":
             bump(f"entry_{entry}")
         states.add((last, tuple(sorted(acc))))
+        tick()
         try:
             before = d1.previous_success_decoder
         except Exception as ex:  # noqa: BLE001
@@ -219,6 +274,7 @@ def execute(sc):
                 kind = "dlms"
             if msg1 is not None and entry == "readout":
                 msg, kind = msg1, "readout"  # the lockstep instance must see the same history
+            tick()
             try:
                 r2 = d2.decode_message(msg)
             except Exception as ex:  # noqa: BLE001
@@ -238,6 +294,19 @@ def execute(sc):
             break
     if bystander is not None:
         bump("bystander_decoder_instance")
+    dirty = pristine.changed()
+    if dirty and not viol and not void:
+        # decoding left something behind in process-wide containers: 'no individual decoder accepts the payload' must
+        # not depend on what was decoded before - ask the decoders again on the state a fresh process has
+        bump("process_state_changed_runs")
+        for step, item in enumerate(sc["history"]):
+            payload = bytes.fromhex(item["data"])
+            now = acceptors(payload, cache=False)
+            with pristine.clean():
+                fresh = acceptors(payload, cache=False)
+            if sorted(now) != sorted(fresh) or any(not same(now[k], fresh[k]) for k in now):
+                add("M7", "verdict-depends-on-earlier-payloads", f"payload of step {step} ({item['k']}): accepted by {sorted(now)} after this history but by {sorted(fresh)} in a fresh process; process-wide state changed: {dirty[:3]}")
+                break
     if sc.get("own") and not void and not viol:
         bump("own_decoder_histories")
         if name != sc["own"]:
@@ -261,6 +330,8 @@ def summarise(sc):
 
 
 def candidates(sc):
+    if sc.get("clock"):
+        yield {k: v for k, v in copy.deepcopy(sc).items() if k != "clock"}
     if sc.get("bystander"):
         yield dict(copy.deepcopy(sc), bystander=0)
     for red in shrink.list_reductions(sc["history"]):
